@@ -22,6 +22,7 @@ import LinVerif.Lemmas.C15Open
 import LinVerif.Lemmas.C15Cache
 import LinVerif.Lemmas.C15Roaring
 import LinVerif.Lemmas.C15Stream
+import LinVerif.Lemmas.C15Decoders
 import LinVerif.Generated.C15
 
 namespace LinVerif.Props.C15
@@ -1064,6 +1065,50 @@ example :
 example :
     mergeAll [[(1, [1]), (3, [1])], [(1, [2]), (2, [2])], [(1, [3])], [], [(0, [4]), (1, [4])]]
       = [(0, [4]), (1, [2]), (1, [4]), (1, [1]), (1, [3]), (2, [2]), (3, [1])] := by
+  decide
+
+/-! ## whose offsets table a reader reads through (round 13) -/
+
+/-- reader.go makes a reader's `FixedOffsetDecoder` in exactly one place — `initialize` allocates a
+new object right before the `Unmarshal` — and does not touch `encoding`'s decoder pool
+(`TableDecoders.stepFresh`; a variant that takes it from the pool is `TableDecoders.stepPooled`) -/
+theorem tie_reader_decoder_objects :
+    Generated.C15.readerDecoderSites = ["initialize: r.offsets = encoding.NewFixedOffsetDecoder()"] := rfl
+
+open LinVerif.Model.TableDecoders in
+/-- **readers_keep_their_offsets.** Whatever is opened afterwards — any number of further tables,
+accepted or refused at any check of `initialize` — a reader that was handed out keeps locating its
+values with the offsets table of ITS file: every open works on a decoder object of its own. -/
+theorem readers_keep_their_offsets (s : St) (evs : List Ev) (i : Nat) (offs : Offs)
+    (h : answers s i = some offs) : answers (runFresh s evs) i = some offs := by
+  obtain ⟨hp, rp, hh, hr⟩ := LinVerif.Lemmas.C15Decoders.runFresh_grows evs s
+  exact LinVerif.Lemmas.C15Decoders.answers_append s _ hp rp hh hr i offs h
+
+open LinVerif.Model.TableDecoders in
+/-- non-vacuity: two tables opened around a refused open; both keep their own tables -/
+example :
+    let s := runFresh ⟨[], [], []⟩ [.openOk [0, 3], .openRefusedLate [9], .openOk [0, 7, 8]]
+    answers s 0 = some [0, 3] ∧ answers s 1 = some [0, 7, 8] ∧
+    answers (runFresh s [.openRefusedEarly, .openOk [1]]) 0 = some [0, 3] := by decide
+
+open LinVerif.Model.TableDecoders in
+/-- **pooled_decoder_released_twice_is_shared.** The pooled variant with TWO cleanup sites that both
+hand the decoder back on a refused open (seeded change c15-26), from every state with an empty pool
+and for every two tables: the first table opened after the refused open answers with its own offsets
+until the second one is opened, and with the SECOND table's offsets from then on — both readers
+hold the same object. With one release per refused open each keeps its own. -/
+theorem pooled_decoder_released_twice_is_shared (s : St) (hp : s.pool = []) (o1 o2 : Offs) :
+    answers (runPooled 2 s [.openRefusedEarly, .openOk o1]) s.readers.length = some o1 ∧
+    answers (runPooled 2 s [.openRefusedEarly, .openOk o1, .openOk o2]) s.readers.length = some o2 ∧
+    answers (runPooled 2 s [.openRefusedEarly, .openOk o1, .openOk o2]) (s.readers.length + 1) = some o2 ∧
+    answers (runPooled 1 s [.openRefusedEarly, .openOk o1, .openOk o2]) s.readers.length = some o1 ∧
+    answers (runPooled 1 s [.openRefusedEarly, .openOk o1, .openOk o2]) (s.readers.length + 1) = some o2 := by
+  obtain ⟨heap, readers, pool⟩ := s
+  subst hp
+  simp [runPooled, stepPooled, getDec, answers, List.replicate]
+
+open LinVerif.Model.TableDecoders in
+example : answers (runPooled 2 ⟨[], [], []⟩ [.openRefusedEarly, .openOk [0, 3], .openOk [0, 7, 8]]) 0 = some [0, 7, 8] := by
   decide
 
 namespace Neg
